@@ -113,6 +113,9 @@ struct Outcome {
     peak: usize,
     biggest: usize,
     nodes: usize,
+    dup_free: bool,
+    /// an 'unshared-duplicate' variant that turned out to be a different canonical program
+    excused: bool,
 }
 
 /// Error class by structural match. Errors are deliberately NOT rendered here: bounded rendering
@@ -190,6 +193,8 @@ fn decode_job(plan: Plan) -> Outcome {
         let mut accepted = false;
         let mut err = String::new();
         let mut nodes = 0usize;
+        // no two distinct nodes of an accepted program carry the same identity hash
+        let mut dup_free = true;
         match plan.decoder {
             Decoder::Redeem => {
                 let res = programs::decode_jet_family(plan.family, BitIter::new(ps), BitIter::new(ws));
@@ -213,6 +218,9 @@ fn decode_job(plan: Plan) -> Outcome {
                         {
                             use simplicity::dag::{DagLike, InternalSharing};
                             nodes = p.as_ref().post_order_iter::<InternalSharing>().count();
+                            // are any two distinct nodes of the result identical (same identity hash)?
+                            let mut seen = std::collections::HashSet::new();
+                            dup_free = p.as_ref().post_order_iter::<InternalSharing>().all(|d| seen.insert(d.node.ihr()));
                         }
                         drop(p);
                     }
@@ -230,6 +238,14 @@ fn decode_job(plan: Plan) -> Outcome {
                 match res {
                     Ok(p) => {
                         accepted = true;
+                        {
+                            use simplicity::dag::{DagLike, InternalSharing};
+                            let mut seen = std::collections::HashSet::new();
+                            dup_free = p
+                                .as_ref()
+                                .post_order_iter::<InternalSharing>()
+                                .all(|d| d.node.ihr().map(|h| seen.insert(h)).unwrap_or(true));
+                        }
                         let p2 = p.to_vec_without_witness();
                         if p2 != plan.program {
                             // carve-out: an attached disconnect branch is accepted and discarded
@@ -268,13 +284,14 @@ fn decode_job(plan: Plan) -> Outcome {
                 }
             }
         }
-        (accepted, err, viol, pp.get(), wp.get(), nodes)
+        (accepted, err, viol, pp.get(), wp.get(), nodes, dup_free)
     });
     let (peak, biggest) = alloc::peak_since(start);
     o.peak = peak;
     o.biggest = biggest;
     match r {
-        Ok((accepted, err, viol, pp, wp, nodes)) => {
+        Ok((accepted, err, viol, pp, wp, nodes, dup_free)) => {
+            o.dup_free = dup_free;
             o.accepted = accepted;
             o.err = err;
             o.viol = viol;
@@ -322,7 +339,16 @@ fn decode_job(plan: Plan) -> Outcome {
             ));
         }
         if let Some(rule) = &plan.must_reject {
-            if o.accepted {
+            // Giving one parent its own copy of a shared node also removes the type equation the
+            // sharing implied; when the copies then get different types they are different nodes
+            // (different identity hashes) and the encoding is the canonical one of a different,
+            // valid program. The duplicate rule is broken only if two identical nodes survive.
+            // (False alarm 10 in DESIGN.md.)
+            let excused = rule == "unshared-duplicate" && o.dup_free;
+            if o.accepted && excused {
+                o.excused = true;
+            }
+            if o.accepted && !excused {
                 o.viol = Some((
                     "canonicity".into(),
                     format!("{}:accepted:{}", plan.decoder.name(), rule),
@@ -495,6 +521,9 @@ impl C02 {
         for k in fault_kinds {
             out.count(&format!("fault_fired_{}", k), 1);
         }
+        if o.excused {
+            out.count("unshared_duplicate_variants_that_are_distinct_programs", 1);
+        }
         out.count(if o.accepted { "decoded_ok" } else { "decoded_err" }, 1);
         out.count(&format!("decoder_{}", plan.decoder.name()), 1);
         out.count(&format!("stack_{}k", STACKS[plan.stack_idx] >> 10), 1);
@@ -660,10 +689,19 @@ impl Engine for C02 {
                     2 => r.range(60_000, 150_000),
                     _ => r.range(150_000, tier.pick(220_000, 300_000)),
                 } as u32;
-                let rec = programs::deep_recipe(&mut r, family, n);
+                // one in six: two deep incomplete types unified with each other. Unification
+                // recurses per level (known finding F5), so the depth stays below what the
+                // smallest simulated stack takes; the recorded overflow is replayed from
+                // regressions/ on every batch instead of being re-found at random.
+                let deep_unify = r.chance(1, 6);
+                let n = if deep_unify { r.range(50, 500) as u32 } else { n };
+                let rec = if deep_unify { programs::deep_unify_recipe(&mut r, family, n) } else { programs::deep_recipe(&mut r, family, n) };
                 match programs::build(&rec) {
                     Some(b) => {
                         out.count("deep_recipes_built", 1);
+                        if deep_unify {
+                            out.count("deep_unify_recipes_built", 1);
+                        }
                         let (p, w) = b.redeem.to_vec_with_witness();
                         (p, w, format!("deep:n={}:{:?}", n, rec.close))
                     }
